@@ -102,8 +102,9 @@ def gen_recipe(rng, name: str, want: dict | None = None) -> dict:
 
     # ---- discrete states -----------------------------------------------------------
     dstates = []
+    force_pair = use_filter and rng.random() < 0.4  # two filter-restricted states (l, h)
     want_l = use_filter or rng.random() < 0.5
-    want_h = stochastic or (not has_a and not want_l) or rng.random() < (0.6 if use_filter else 0.35)
+    want_h = force_pair or stochastic or (not has_a and not want_l) or rng.random() < (0.6 if use_filter else 0.35)
     if want_l:
         nl = rng.choice([2, 2, 3])
         if dchoices:
@@ -115,7 +116,9 @@ def gen_recipe(rng, name: str, want: dict | None = None) -> dict:
         dstates.append({"name": "l", "n": nl, "trans": {"kind": "det", "rule": rng.choice(rules)}})
     if want_h:
         nh = rng.choice([2, 3, 3, 4]) if stochastic else rng.choice([2, 3])
-        if stochastic:
+        if force_pair:
+            dstates.append({"name": "h", "n": rng.choice([2, 3]), "trans": {"kind": "det", "rule": "keep"}})
+        elif stochastic:
             cands = ["h"]
             if want_l and not use_filter:
                 cands.append("l")
@@ -131,10 +134,10 @@ def gen_recipe(rng, name: str, want: dict | None = None) -> dict:
             rules = ["keep", "age", "cycle0"] + (["flip"] if want_l else [])
             dstates.append({"name": "h", "n": nh, "trans": {"kind": "det", "rule": rng.choice(rules)}})
     # second stochastic state sometimes
-    if stochastic and rng.random() < (0.6 if want.get("two_stochastic") else 0.25) and not any(
+    if stochastic and (force_pair or rng.random() < (0.6 if want.get("two_stochastic") else 0.25)) and not any(
         d["name"] == "z" for d in dstates
     ):
-        cands = ["z", "h"] + [c["name"] for c in dchoices] + (["_period"] if n_periods > 1 else [])
+        cands = ["z"] + (["h"] if any(d["name"] == "h" for d in dstates) else []) + [c["name"] for c in dchoices] + (["_period"] if n_periods > 1 else [])
         deps = rng.sample(cands, rng.randint(1, min(2, len(cands))))
         dstates.append({"name": "z", "n": rng.choice([2, 3]), "trans": {"kind": "stoch", "deps": deps}})
     if not dstates and not has_a:
@@ -150,7 +153,7 @@ def gen_recipe(rng, name: str, want: dict | None = None) -> dict:
         u = rng.random()
         step = rng.choice([1, 1, 2, 3])
         choice2 = "q" if (len(dchoices) == 2 and rng.random() < 0.4) else None
-        if hdet is not None and u < 0.45:
+        if hdet is not None and (force_pair or u < 0.3):
             # two restricted states; the corner (and possibly more) of their product is excluded
             hdet["trans"]["rule"] = "keep"
             K = ld["n"] + hdet["n"] - 3
@@ -161,6 +164,11 @@ def gen_recipe(rng, name: str, want: dict | None = None) -> dict:
             kind = rng.choice(["lock", "lock", "lock_period"]) if n_periods > 1 else "lock"
             st = "h" if (hany is not None and rng.random() < 0.3) else "l"
             filt = {"kind": kind, "choice": "w", "choice2": choice2, "state": st, "from_period": rng.randint(1, max(1, n_periods - 1)), "step": step}
+
+    # a second filter function; together with the first one the model then has filters with
+    # mixed period dependence (one takes _period, the other does not)
+    if filt and n_periods >= 2 and rng.random() < 0.45:
+        filt["gate_from"] = rng.randint(1, max(1, n_periods - 1))
 
     # ---- auxiliaries, constraints, coefficients ----------------------------------------
     has_age = rng.random() < 0.5
@@ -423,6 +431,15 @@ def render(recipe: dict) -> tuple[str, dict]:
             add("lock_filter", [*fargs, l2], [], [f"return xp.logical_and({l} + {l2} <= {filt['K']}, {cond})"])
         else:
             add("lock_filter", [*fargs, "_period"], [], [f"return xp.logical_or({cond}, _period >= {filt['from_period']})"])
+        if filt.get("gate_from") is not None:
+            # the first label of the choice is not available before period gate_from
+            # (only in the first label of the restricted state; every filter involves a state)
+            add(
+                "gate_filter",
+                [w, l, "_period"],
+                [],
+                [f"return xp.logical_or(xp.logical_or({w} >= 1, {l} >= 1), _period >= {filt['gate_from']})"],
+            )
 
     # ---- declaration order ----------------------------------------------------------------
     names = list(funcs)
@@ -508,7 +525,7 @@ def build_model(recipe: dict, fns: dict, lcm_mod):
 # ======================================================================================
 
 
-def gen_params(rng, recipe: dict, meta: dict) -> dict:
+def gen_params(rng, recipe: dict, meta: dict, sparsity: float = 0.0) -> dict:
     """Parameter values following the template structure, as plain python data."""
     vals = {
         "g": lambda: round(rng.uniform(0.15, 0.55), 9),
@@ -526,7 +543,7 @@ def gen_params(rng, recipe: dict, meta: dict) -> dict:
         params["income"]["k"] = round(rng.uniform(0.01, 0.08), 9)
     if meta["stochastic"]:
         params["shocks"] = {
-            st: gen_transition_array(rng, recipe, st, deps) for st, deps in meta["stochastic"].items()
+            st: gen_transition_array(rng, recipe, st, deps, sparsity) for st, deps in meta["stochastic"].items()
         }
     return params
 
@@ -538,7 +555,7 @@ def dep_size(recipe: dict, dep: str) -> int:
     return d["n"]
 
 
-def gen_transition_array(rng, recipe: dict, state: str, deps: list[str]):
+def gen_transition_array(rng, recipe: dict, state: str, deps: list[str], sparsity: float = 0.0):
     """Nested list with shape (*dep sizes in signature order, n_labels).
 
     Rows: Dirichlet-like, with structural zeros and some degenerate rows.
@@ -548,6 +565,16 @@ def gen_transition_array(rng, recipe: dict, state: str, deps: list[str]):
 
     def row():
         u = rng.random()
+        if sparsity and rng.random() < sparsity:
+            # rows with many structural zeros: a wrongly selected row shows as an impossible move
+            r = [0.0] * n
+            k = rng.sample(range(n), rng.choice([1, 1, 2]) if n > 2 else 1)
+            if len(k) == 1:
+                r[k[0]] = 1.0
+            else:
+                x = round(rng.uniform(0.2, 0.8), 6)
+                r[k[0]], r[k[1]] = x, round(1.0 - x, 6)
+            return r
         if u < 0.12:
             r = [0.0] * n
             r[rng.randrange(n)] = 1.0
@@ -623,7 +650,7 @@ def expand_agents(recipe: dict, agents):
     return agents
 
 
-def perturb_params(rng, recipe: dict, meta: dict, base: dict) -> dict:
+def perturb_params(rng, recipe: dict, meta: dict, base: dict, sparsity: float = 0.0) -> dict:
     """A neighbour of ``base``: one or two leaves changed, everything else identical."""
     import copy
 
@@ -639,7 +666,7 @@ def perturb_params(rng, recipe: dict, meta: dict, base: dict) -> dict:
     chosen = rng.sample(pool, min(len(pool), rng.choice([1, 1, 2])))
     if rng.random() < 0.15:
         chosen.append(("beta",))
-    fresh = gen_params(rng, recipe, meta)
+    fresh = gen_params(rng, recipe, meta, sparsity)
     for lf in chosen:
         if lf == ("beta",):
             out["beta"] = fresh["beta"]
